@@ -56,7 +56,7 @@ func init() {
 		var hs []harness
 		for _, n := range []string{"appendAssign", "appendCombine", "newDeref", "badRegexp", "regexpPattern", "regexpSimplify", "sortSlice", "filepathJoin", "flagName"} {
 			hs = append(hs, harness{Name: "gsxAPI_" + n, Pkg: "checkers", Quick: map[string]int{"K": 3, "B": 2, "strlen": 8, "paths": 1500, "wall_s": 30},
-				Thorough: map[string]int{"K": 4, "B": 2, "strlen": 8, "paths": 6000, "wall_s": 45}, NoValidate: true, Tolerant: true, ReplayFn: replayAPI(n)})
+				Thorough: map[string]int{"K": 4, "B": 2, "strlen": 8, "paths": 4000, "wall_s": 30}, NoValidate: true, Tolerant: true, ReplayFn: replayAPI(n)})
 		}
 		properties["C20"] = &property{ID: "C20", Level: "model_checking", Kinds: []string{"api"}, Harnesses: hs,
 			Assumptions: []string{"as C01; table of documented subjects per checker (builtin name / standard package path) in the harness"}}
@@ -89,6 +89,8 @@ func init() {
 			{Name: "gsxC08Forward", Pkg: "checkers/analyzer", Quick: map[string]int{"strlen": 6, "paths": 3000, "wall_s": 240}, MustReach: []string{"pass returned", "fix forwarded"}},
 			{Name: "gsxC16CheckPackage", Pkg: "cmd/go-critic", Quick: map[string]int{"strlen": 8}, MustReach: []string{"checked"}},
 			{Name: "gsxC16CheckPackage", Pkg: "cmd/gocritic", Quick: map[string]int{"strlen": 8}, MustReach: []string{"checked"}},
+			{Name: "gsxC08TestVariants", Pkg: "cmd/go-critic", Quick: map[string]int{"strlen": 8, "paths": 400, "wall_s": 120}, ReplayFn: replayC08Variants, NoValidate: true, MustReach: []string{"analysed"}},
+			{Name: "gsxC08TestVariants", Pkg: "cmd/gocritic", Quick: map[string]int{"strlen": 8, "paths": 400, "wall_s": 120}, ReplayFn: replayC08Variants, NoValidate: true, MustReach: []string{"analysed"}},
 			{Name: "gsxC08OfferCLI", Pkg: "cmd/go-critic", Quick: map[string]int{"strlen": 9, "paths": 400, "wall_s": 240}, ReplayFn: replayC08Offer, NoValidate: true, MustReach: []string{"main ended"}},
 			{Name: "gsxC08OfferCLI", Pkg: "cmd/gocritic", Quick: map[string]int{"strlen": 9, "paths": 400, "wall_s": 240}, ReplayFn: replayC08Offer, NoValidate: true, MustReach: []string{"main ended"}},
 			{Name: "gsxC08OfferAnalysis", Pkg: "cmd/go-critic-analysis", Quick: map[string]int{"strlen": 9, "paths": 400, "wall_s": 240}, ReplayFn: replayC08Offer, NoValidate: true, MustReach: []string{"main ended"}},
@@ -105,7 +107,7 @@ func init() {
 		// checkers that quote syntax (original and/or suggested code) in their messages
 		var hs []harness
 		quoting := quotingCheckers()
-		for _, h := range visitHarnesses(map[string]int{"K": 3, "B": 2, "strlen": 8, "paths": 1000, "wall_s": 25}, map[string]int{"K": 4, "B": 2, "strlen": 8, "paths": 6000, "wall_s": 45, "witness": 1}) {
+		for _, h := range visitHarnesses(map[string]int{"K": 3, "B": 2, "strlen": 8, "paths": 1000, "wall_s": 25}, map[string]int{"K": 4, "B": 2, "strlen": 8, "paths": 4000, "wall_s": 30, "witness": 1}) {
 			if strings.HasPrefix(h.Name, "gsxVisit_") && quoting[strings.TrimPrefix(h.Name, "gsxVisit_")] {
 				hs = append(hs, h)
 			}
@@ -118,18 +120,21 @@ func init() {
 	}
 	properties["C07"] = &property{
 		ID: "C07", Level: "model_checking", Kinds: []string{"pos"},
-		Harnesses:   visitHarnesses(map[string]int{"K": 3, "B": 2, "strlen": 8, "paths": 1000, "wall_s": 25}, map[string]int{"K": 4, "B": 2, "strlen": 8, "paths": 6000, "wall_s": 45}),
+		Harnesses:   visitHarnesses(map[string]int{"K": 3, "B": 2, "strlen": 8, "paths": 1000, "wall_s": 25}, map[string]int{"K": 4, "B": 2, "strlen": 8, "paths": 4000, "wall_s": 30}),
 		Assumptions: []string{"as C01; diagnostics are observed in the checker's warning buffer; message formatting (go/printer) is an event stub checked for format/argument consistency"},
 	}
 	properties["C05"] = &property{
 		ID: "C05", Level: "model_checking", Kinds: []string{"write"},
-		Harnesses: append(visitHarnesses(map[string]int{"K": 3, "B": 2, "strlen": 8, "paths": 1000, "wall_s": 25}, map[string]int{"K": 4, "B": 2, "strlen": 8, "paths": 6000, "wall_s": 45}),
+		Harnesses: append(visitHarnesses(map[string]int{"K": 3, "B": 2, "strlen": 8, "paths": 1000, "wall_s": 25}, map[string]int{"K": 4, "B": 2, "strlen": 8, "paths": 4000, "wall_s": 30}),
 			harness{Name: "gsxC18FailurePolicy", Pkg: "checkers", Quick: map[string]int{"strlen": 16}, NoValidate: true}),
 		Assumptions: []string{"as C01; write monitor on every cell of the lazily created syntax tree, the types.Info tables and the registered parameter values"},
 	}
 	properties["C01"] = &property{
 		ID: "C01", Level: "model_checking", Kinds: []string{"panic"},
-		Harnesses: visitHarnesses(map[string]int{"K": 3, "B": 2, "strlen": 8, "paths": 1000, "wall_s": 25}, map[string]int{"K": 4, "B": 2, "strlen": 8, "paths": 6000, "wall_s": 45}),
+		Assumptions: []string{"inputs are go/ast trees satisfying the well-formedness table generated from go/ast's field documentation, with a lazily initialised types.Info / go/types object graph; text is ASCII; constant strings come from a 2-entry menu",
+			"go/types accessor methods run for real over lazy objects; lazily resolving go/types functions (Underlying of Named, Identical, Implements, Sizeof incl. its 'assertion failed' give-up, Scope.Lookup ...) are memoised nondeterministic stubs",
+			"message formatting (go/printer) is an event stub; the step budget (400k SSA instructions per path) is the unwinding assertion"},
+		Harnesses: visitHarnesses(map[string]int{"K": 3, "B": 2, "strlen": 8, "paths": 1000, "wall_s": 25}, map[string]int{"K": 4, "B": 2, "strlen": 8, "paths": 4000, "wall_s": 30}),
 	}
 	properties["C06"] = &property{
 		ID: "C06", Level: "model_checking",
@@ -208,7 +213,7 @@ func visitHarnesses(quick, thorough map[string]int) []harness {
 	for _, n := range names {
 		hs = append(hs, harness{Name: "gsxVisit_" + n, Pkg: "checkers", Quick: quick, Thorough: thorough, NoValidate: true, Tolerant: true, ReplayFn: replayVisit(n)})
 		wq := map[string]int{"K": 2, "B": 2, "strlen": 8, "paths": 400, "wall_s": 15}
-		wt := map[string]int{"K": 3, "B": 2, "strlen": 8, "paths": 3000, "wall_s": 25}
+		wt := map[string]int{"K": 3, "B": 2, "strlen": 8, "paths": 2000, "wall_s": 18}
 		hs = append(hs, harness{Name: "gsxWalk_" + n, Pkg: "checkers", Quick: wq, Thorough: wt, NoValidate: true, Tolerant: true, ReplayFn: replayVisit(n)})
 	}
 	return hs
